@@ -34,6 +34,35 @@ pub fn matrix_strategy(maxdim: usize) -> BoxedStrategy<Mat> {
         .boxed()
 }
 
+/// large sparse matrices: three- and four-digit indices, weights of two digits
+fn large_strategy(_t: Tier) -> BoxedStrategy<Mat> {
+    (prop_oneof![2 => 90usize..=130, 1 => 990usize..=1100, 1 => 1usize..=20], prop_oneof![2 => 90usize..=130, 1 => 990usize..=1100, 1 => 1usize..=20], 0usize..=300)
+        .prop_flat_map(|(rows, cols, cnt)| {
+            // a few heavy lines so that weights reach two digits
+            (proptest::collection::vec((any::<u16>(), any::<u16>()), cnt), proptest::collection::vec((any::<bool>(), any::<u16>(), proptest::collection::vec(any::<u16>(), 9..=14)), 0..=2), Just((rows, cols)))
+        })
+        .prop_map(|(cells, heavy, (rows, cols))| {
+            let mut set = BTreeSet::new();
+            let mut ones = Vec::new();
+            let mut put = |e: (usize, usize), ones: &mut Vec<(usize, usize)>| {
+                if set.insert(e) {
+                    ones.push(e);
+                }
+            };
+            for (a, b) in cells {
+                put((idx(a, rows), idx(b, cols)), &mut ones);
+            }
+            for (is_row, line, others) in heavy {
+                for o in others {
+                    let e = if is_row { (idx(line, rows), idx(o, cols)) } else { (idx(o, rows), idx(line, cols)) };
+                    put(e, &mut ones);
+                }
+            }
+            Mat { rows, cols, ones }
+        })
+        .boxed()
+}
+
 fn check_roundtrip(m: &Mat, p: &mut Probe) -> Check {
     let h = m.to_sparse();
     let want = m.set();
@@ -45,6 +74,8 @@ fn check_roundtrip(m: &Mat, p: &mut Probe) -> Check {
     p.class_if(want.is_empty(), "all-zero");
     p.class_if(empty_line, "empty-row-or-column");
     p.class_if(irregular, "irregular");
+    p.class_if(m.rows >= 100 || m.cols >= 100, "three-digit-indices");
+    p.class_if(rl.iter().chain(cl.iter()).any(|l| l.len() >= 10), "two-digit-weights");
     if empty_line || irregular {
         p.nontrivial();
     }
@@ -399,6 +430,14 @@ pub fn property() -> Property {
                 strategy: |t| matrix_strategy(t.pick(12, 24)),
                 check: check_roundtrip,
                 health: &[("empty-row-or-column", 0.30), ("all-zero", 0.02)],
+            }),
+            Box::new(Sub {
+                name: "roundtrip-large",
+                rule: "large sparse matrices (dimensions 90..=130 or 990..=1100, occasionally 1..=20, up to 300 random ones plus up to two rows/columns of weight 9..=14, insertion order random): indices of three and four digits, weights of two digits; same round-trip/format oracle",
+                cases: |t| t.pick(20_000, 600_000),
+                strategy: large_strategy,
+                check: check_roundtrip,
+                health: &[("three-digit-indices", 0.50), ("two-digit-weights", 0.20)],
             }),
             Box::new(EnumSub {
                 name: "totality-fixed",
